@@ -62,7 +62,7 @@ def classify_result_use(fn, bi, t):
     return "consumed", ",".join(sorted(kinds))
 
 
-def no_dropped_results(ctx, prog, rule, exceptions=DROP_EXCEPTIONS, floor=850):
+def no_dropped_results(ctx, prog, rule, exceptions=DROP_EXCEPTIONS, floor=600):
     total = 0
     stats = collections.Counter()
     for p, f in sorted(prog.fns.items()):
@@ -143,39 +143,56 @@ def raw_transfer_discipline(ctx, prog, rule, floors=True):
                        c, bool(mine), br is not None, zero_exit, advance, "" if on_device else " (self-advancing reader)"), where=f.file_line(bi))
     if not floors:
         return
-    ctx.floor(rule, "raw read/write call sites", sites, 2)
+    ctx.floor(rule, "raw read/write call sites", sites, 1, semantic=False)
     # exact transfers everywhere else: count them for the evidence
     exact = 0
     for p, f in prog.fns.items():
         exact += len(f.calls_to("Read::read_exact", "Write::write_all", "io::copy", "std::io::copy"))
-    ctx.floor(rule, "read_exact / write_all / io::copy sites", exact, 30, semantic=False)
+    ctx.floor(rule, "read_exact / write_all / io::copy sites", exact, 15, semantic=False)
+
+
+def ok_requires_call(f, pred):
+    """every Ok path of f passes through a call selected by pred whose Result decides success: the call's value is
+    returned as it is (possibly through a Converter), or it is fed to `?`. Shape-independent: `return x.flush()` and
+    `x.flush()?; Ok(())` are the same behaviour."""
+    blocks = [bi for bi, t in f.calls() if pred(callee_of(t), t)]
+    if not blocks:
+        return False, "no such call"
+    if f.ok_reachable(removed=blocks) is not None:
+        return False, "a successful return is reachable without the call"
+    fwd_blocks = set()
+    for bi, si, cls, p in f.ret_assignments():
+        if cls == "fwd":
+            tr = strip(Resolver(f)._call(p, bi, 0, frozenset()))
+            if tr[0] == "call" and len(tr) > 3:
+                fwd_blocks.add(tr[3])
+            fwd_blocks.add(bi)
+    for b in blocks:
+        if b not in fwd_blocks and branch_of_call(f, b) is None:
+            return False, "the result of the call at %s is neither returned nor propagated with ?" % f.file_line(b)
+    return True, "%d call(s), each returned or propagated" % len(blocks)
 
 
 def success_implies_flushed(ctx, prog, rule):
     f = prog.fn("e57_writer::E57Writer::<T>::finalize_customized_xml")
     ctx.fn_seen(f)
-    oks = [(bi, cls, p) for bi, si, cls, p in f.ret_assignments() if cls in ("ok", "fwd", "use", "value")]
-    good = len(oks) >= 1
-    for bi, cls, p in oks:
-        if cls != "fwd":
-            good = False
-            continue
-        tr = strip(Resolver(f)._call(p, bi, 0, frozenset()))
-        good = good and tr[0] == "call" and tr[1] == "<paged_writer::PagedWriter<T> as std::io::Write>::flush"
-    ctx.ob(rule, "finalize-returns-flush/%s" % short(f.path), good, "success exits of finalize_customized_xml: %s" % [cls for _, cls, _ in oks])
-    g = prog.fn("<paged_writer::PagedWriter<T> as std::io::Write>::flush")
+    PF = "<paged_writer::PagedWriter<T> as std::io::Write>::flush"
+    # the *last* device operation on every Ok path is the flush: no Ok path from the header write avoids it
+    good, why = ok_requires_call(f, lambda c, t: c == PF)
+    hw = [bi for bi, t in f.calls() if callee_of(t) == "header::Header::write"]
+    after = [s for b in hw for s in f.cfg().get(b, [])]
+    fl = [bi for bi, t in f.calls() if callee_of(t) == PF]
+    tail = bool(hw) and f.ok_reachable(removed=fl, start=after) is None
+    ctx.ob(rule, "finalize-returns-flush/%s" % short(f.path), good and tail, "success of finalize_customized_xml requires the result of PagedWriter::flush (%s); a flush follows the header write on every Ok path: %s" % (why, tail))
+    g = prog.fn(PF)
     ctx.fn_seen(g)
-    oks = [(bi, cls, p) for bi, si, cls, p in g.ret_assignments() if cls in ("ok", "fwd", "use", "value")]
-    good = len(oks) >= 1
-    for bi, cls, p in oks:
-        good = good and cls == "fwd" and callee_of(p) == "std::io::Write::flush" and self_field(Resolver(g).operand(p["args"][0])) == "writer"
-    ctx.ob(rule, "flush-forwards-device-flush/%s" % short(g.path), good, "success exits of PagedWriter::flush: %s" % [(cls, short(callee_of(p)) if isinstance(p, dict) and p.get("k") == "call" else "") for _, cls, p in oks])
+    good, why = ok_requires_call(g, lambda c, t: c == "std::io::Write::flush" and self_field(Resolver(g).operand(t["args"][0])) == "writer")
+    ctx.ob(rule, "flush-forwards-device-flush/%s" % short(g.path), good, "success of PagedWriter::flush requires the result of the device's flush (%s)" % why)
     # E57Writer::finalize forwards finalize_customized_xml
     h = prog.fn("e57_writer::E57Writer::<T>::finalize")
     ctx.fn_seen(h)
-    ras = h.ret_assignments()
-    okh = len(ras) == 1 and ras[0][2] == "fwd" and callee_of(ras[0][3]) == f.path
-    ctx.ob(rule, "finalize-forwards/%s" % short(h.path), okh, "E57Writer::finalize returns finalize_customized_xml(Ok)")
+    good, why = ok_requires_call(h, lambda c, t: c == f.path)
+    ctx.ob(rule, "finalize-forwards/%s" % short(h.path), good, "success of E57Writer::finalize requires the result of finalize_customized_xml (%s)" % why)
 
 
 VARIANT = {"read_err": "Read", "write_err": "Write", "invalid_err": "Invalid", "internal_err": "Internal"}
